@@ -498,6 +498,13 @@ var $growSlice = (slice, minCapacity) => {
             for (let i = slice.$length; i < capacity; i++) {
                 newArray[i] = zero();
             }
+            const elem = slice.constructor.elem;
+            if (elem.kind === $kindArray || elem.kind === $kindStruct) {
+                // Array and struct elements are values: the new backing array gets its own copies.
+                for (let i = 0; i < length; i++) {
+                    newArray[i] = $clone(newArray[i], elem);
+                }
+            }
         } else {
             newArray = new array.constructor(capacity);
             newArray.set(array.subarray(offset, offset + length));
